@@ -450,3 +450,42 @@ Theorem store_matches_update_b w sel ms op f og si :
 Proof.
   intros H1 H2. apply store_matches_update; [apply flags_total_of_b; exact H1|apply no_shared_deleted_of_b; exact H2].
 Qed.
+
+(* ---------- a foreign STORE reaches an observer ---------- *)
+Lemma same_view_refl a : same_view a a.
+Proof. split; [reflexivity|intros; reflexivity]. Qed.
+
+Lemma same_view_trans a b c : same_view a b -> same_view b c -> same_view a c.
+Proof. intros [H1 H2] [H3 H4]. split; [congruence|]. intros m g Hg. rewrite H2, H4 by exact Hg. reflexivity. Qed.
+
+Lemma same_view_sym a b : same_view a b -> same_view b a.
+Proof. intros [H1 H2]. split; [congruence|]. intros m g Hg. rewrite H2 by exact Hg. reflexivity. Qed.
+
+Lemma apply_parts_same_view parts a b : same_view a b -> same_view (apply_parts parts a) (apply_parts parts b).
+Proof.
+  intros [Hi Hf]. split; [rewrite !ids_apply_parts; exact Hi|]. intros m g Hg.
+  assert (Hh : snap_has m a = snap_has m b) by (rewrite !ids_has, Hi; reflexivity).
+  destruct (snap_has m a) eqn:Ha.
+  - rewrite !get_apply_parts by (try exact Hg; congruence). rewrite Hf by exact Hg. reflexivity.
+  - rewrite !get_absent; [reflexivity| |]; rewrite has_apply_parts; congruence.
+Qed.
+
+(* Session o has mailbox sel selected, nothing pending, and its snapshot snap0 shows what the database holds (up to
+   \Recent). Another session's STORE changes the database (store_db) and emits the flag update; the update reaches o,
+   which then flushes (NOOP). Its snapshot shows what the database holds now. *)
+Theorem store_reaches_observer w sel ms op f og si o snap0 :
+  flags_total_b w sel = true -> no_shared_deleted_b w = true ->
+  same_view snap0 (fresh_view w sel) ->
+  exists st' out,
+    flush_raw true (mkS snap0 (deliver_all o sel snap0 [UFlags sel (store_parts w ms op f) og si] [])) = Some (st', out) /\
+    s_res st' = [] /\
+    same_view (s_snap st') (fresh_view (store_db w sel ms op f) sel).
+Proof.
+  intros H1 H2 Hs.
+  destruct (observer_view o sel snap0 [UFlags sel (store_parts w ms op f) og si]) as (st' & out & Hfl & Hres & Hsnap).
+  { repeat constructor. }
+  exists st', out. split; [exact Hfl|]. split; [exact Hres|]. rewrite Hsnap. cbn [fold_left].
+  rewrite view_apply_own_flags.
+  eapply same_view_trans; [apply apply_parts_same_view; exact Hs|].
+  apply same_view_sym. rewrite <- (view_apply_own_flags sel _ og si). apply store_matches_update_b; assumption.
+Qed.
